@@ -48,7 +48,7 @@ pub enum Wait {
     ThreadDone(u8),
     /// rendezvous channel (simrt): receiver waits for a sender, sender waits for a receiver
     ChanRecv(usize),
-    ChanSend(usize),
+    ChanSend(usize, u64),
     /// harness-level: wait until process `pid` is not alive
     ProcGone(i32),
     /// never ready by itself (only the deadline ends it)
@@ -142,6 +142,7 @@ pub struct Sim {
     pub late_ns: u64,
     pub sched_switches: u64,
     pub deadline_probe: Vec<(u64, u64)>,
+    pub handoff_depth: u32,
 }
 
 static SIM: AtomicPtr<Sim> = AtomicPtr::new(std::ptr::null_mut());
@@ -205,6 +206,7 @@ impl Sim {
             late_ns: 0,
             sched_switches: 0,
             deadline_probe: vec![],
+            handoff_depth: 0,
         }
     }
 
@@ -259,7 +261,7 @@ impl Sim {
             Wait::Timer | Wait::Never => false,
             Wait::ThreadDone(u) => self.threads[*u as usize].state == TState::Done,
             Wait::ChanRecv(c) => self.chans[*c].recv_ready(),
-            Wait::ChanSend(c) => self.chans[*c].send_ready(),
+            Wait::ChanSend(c, ticket) => self.chans[*c].send_ready(*ticket),
             Wait::ProcGone(pid) => !self.k.procs.get(pid).map(|p| p.alive()).unwrap_or(false),
         }
     }
@@ -463,6 +465,10 @@ fn preempt_budget(s: &mut Sim) -> usize {
     }
 }
 
+pub fn switch_pub(me: u8, u: u8) {
+    switch_to(me, u)
+}
+
 fn switch_to(me: u8, u: u8) {
     let (mine, theirs) = {
         let s = sim();
@@ -541,14 +547,27 @@ pub fn par_enter(t: u8, call: Call) {
         let e = en[s.ch.choose(en.len())];
         s.step_entity(e);
     }
-    // pre-emption by another parent thread: at most one hand-over per call
+    // pre-emption by other parent threads.  A thread that was handed the baton this way is not
+    // itself pre-empted by threads (it runs until it blocks), so hand-overs cannot ping-pong.
     let s = sim();
-    if s.threads.len() > 1 && s.poisoned.is_none() {
-        let others: Vec<u8> = (0..s.threads.len() as u8).filter(|u| *u != t && s.thread_enabled_pub(*u as usize)).collect();
-        if !others.is_empty() && s.ch.choose(3) == 1 {
+    if s.threads.len() > 1 && s.poisoned.is_none() && s.handoff_depth == 0 {
+        let greedy = matches!(s.personality, Personality::ChildGreedy | Personality::Bursty);
+        let mut rounds = if s.ch.choose(3) == 0 { 0 } else if greedy { 4 } else { 1 };
+        while rounds > 0 {
+            rounds -= 1;
+            let s = sim();
+            if s.poisoned.is_some() {
+                break;
+            }
+            let others: Vec<u8> = (0..s.threads.len() as u8).filter(|u| *u != t && s.thread_enabled_pub(*u as usize)).collect();
+            if others.is_empty() {
+                break;
+            }
             let u = others[s.ch.choose(others.len())];
             s.threads[t as usize].state = TState::Runnable;
+            s.handoff_depth += 1;
             switch_to(t, u);
+            sim().handoff_depth -= 1;
         }
     }
 }
@@ -575,7 +594,8 @@ pub fn sched_block(t: u8, wait: Wait, deadline: Option<u64>) -> Woke {
                 s.k.fcount.hit("timer_late");
             }
         }
-        let others_runnable = s.threads.iter().enumerate().filter(|(u, th)| *u != t as usize && (th.state == TState::Runnable || th.state == TState::Running)).count();
+        // parent threads that could still run now (quiescence = none)
+        let others_runnable = (0..s.threads.len()).filter(|u| *u != t as usize && s.thread_enabled(*u)).count();
         let cur = s.threads[t as usize].cur_call;
         s.k.ev(Ent::Par(t), Call::Blocked, [cur as i64, others_runnable as i64, 0], 0);
         let th = &mut s.threads[t as usize];
